@@ -2,7 +2,7 @@
 import math, os, shutil
 import cvbuild
 from cvlib import fbits, bits_to_f, tok_val
-from cvscen import cfg, pos, tf, num
+from cvscen import cfg, pos, tf, num, inj_cv
 
 RULE = ("trajectory files of modules with 1-2 variables under every combination of the five output flags (plus extended-Lagrangian "
         "variables), 0-2 harmonic biases with outputEnergy / outputCenters / outputAccumulatedWork, trajectory frequency 1-4, "
@@ -124,6 +124,9 @@ def distribution(cases):
             key = "%s/%s/%s" % (m["vt"], m["acf"]["kind"], "cross" if m["acf"]["with"] == "q" else "auto")
             d["acf"][key] = d["acf"].get(key, 0) + 1
             continue
+        if m.get("family") == "work":
+            key = "work/%s/%s" % (m["kind"], "to zero" if m["k1"] == 0.0 else "to k1"); d["acf"][key] = d["acf"].get(key, 0) + 1
+            continue
         if "freq" not in m:
             continue
         d["freq"][m["freq"]] = d["freq"].get(m["freq"], 0) + 1
@@ -150,6 +153,8 @@ def oracle(case, out):
     m = case["meta"]; viol = []
     if m.get("family") == "acf":
         return oracle_acf(case, out)
+    if m.get("family") == "work":
+        return oracle_work(case, out)
     ln = m["dump"]
     # reconstruct the file order: the harness prints lines in file order; parse_out numbers occurrences per tag, so
     # collect per tag in order
@@ -330,8 +335,79 @@ def gen_acf(rng, tier):
     return cases
 
 
+def gen_work(rng, tier):
+    """accumulated work of a restraint whose force constant changes (also down to exactly zero): the W_ column against
+    sum over steps of dU/dk times the increment of k"""
+    cases = []
+    work = os.path.join(cvbuild.CACHE, "c19-scratch"); os.makedirs(work, exist_ok=True)
+    for k in range(6 if tier == "quick" else 60):
+        kind = ["walls", "harmonic", "linear"][k % 3]
+        w = rng.choice([0.5, 1.0]); k0 = rng.choice([2.0, 5.0, 10.0]); k1 = [0.0, 0.0, rng.choice([0.5, 20.0])][(k // 3) % 3]
+        dec = (k1 == 0.0 and k % 2 == 0)
+        n = rng.randint(5, 12); lexp = rng.choice([1.0, 1.0, 2.0])
+        c0 = rng.uniform(-0.5, 0.5)
+        sched = (" decoupling on\n" if dec else " targetForceConstant %s\n" % num(k1)) + " targetNumSteps %d\n lambdaExponent %s\n" % (n, num(lexp))
+        if kind == "walls":
+            b = "harmonicWalls {\n name wb\n colvars x0\n upperWalls %s\n forceConstant %s\n%s outputAccumulatedWork on\n outputEnergy on\n}\n" % (num(c0), num(k0), sched)
+        elif kind == "harmonic":
+            b = "harmonic {\n name wb\n colvars x0\n centers %s\n forceConstant %s\n%s outputAccumulatedWork on\n outputEnergy on\n}\n" % (num(c0), num(k0), sched)
+        else:
+            b = "linear {\n name wb\n colvars x0\n centers %s\n forceConstant %s\n%s outputAccumulatedWork on\n outputEnergy on\n}\n" % (num(c0), num(k0), sched)
+        prefix = os.path.join(work, "w%d" % k)
+        lines = ["m.new 1", "m.opt prefix %s" % prefix, "m.opt trajfreq 1", cfg(inj_cv("x0", 0, -3.0, 3.0, w)), cfg(b)]
+        xs = []
+        x = c0 + rng.uniform(0.3, 1.0)               # beyond the wall / away from the centre during the whole schedule
+        for t in range(n + 4):
+            x = max(c0 + 0.2, x + rng.uniform(-0.15, 0.2))
+            lines += [pos(0, 0.0, 0.0, x), "m.step"]; xs.append(x)
+        lines.append("t.dump %s.colvars.traj" % prefix)
+        cases.append({"lines": lines, "meta": {"family": "work", "kind": kind, "w": w, "k0": k0, "k1": 0.0 if dec else k1, "dec": dec, "n": n, "lexp": lexp, "c0": c0,
+                                               "xs": xs, "dump": len(lines)}, "nontrivial": True})
+    return cases
+
+
+def oracle_work(case, out):
+    m = case["meta"]; ln = m["dump"]
+    tls = []; occ = 1
+    while (ln, "tl", occ) in out:
+        tls.append([tok_val(t)[1] for t in out[(ln, "tl", occ)]]); occ += 1
+    rows = []; occ = 1
+    while (ln, "td", occ) in out:
+        rows.append((tok_val(out[(ln, "td", occ)][0])[1], [tok_val(t)[1] for t in out[(ln, "tv", occ)]])); occ += 1
+    if not tls or "W_wb" not in tls[0]:
+        return ["the trajectory of a restraint with outputAccumulatedWork has no W_ column (labels %r)" % (tls[:1],)]
+    iw = tls[0].index("W_wb") - 1; ie = tls[0].index("E_wb") - 1
+    n, k0, k1, w, c0 = m["n"], m["k0"], m["k1"], m["w"], m["c0"]
+
+    def kat(t):
+        lam = min(t, n) / float(n)
+        if m["dec"]:
+            lam = 1.0 - lam
+            return k0 * lam ** m["lexp"] if t <= n else 0.0          # decoupling: from k0 down to 0
+        return k0 + (k1 - k0) * lam ** m["lexp"]
+
+    def dudk(x):
+        if m["kind"] == "linear":
+            return (x - c0) / w
+        return 0.5 * (x - c0) ** 2 / (w * w)
+    W = 0.0
+    for t, x in enumerate(m["xs"]):
+        if t > 0 and t <= n:
+            W += dudk(x) * (kat(t) - kat(t - 1))
+        if t >= len(rows):
+            return ["the trajectory has %d lines for %d steps" % (len(rows), len(m["xs"]))]
+        st, v = rows[t]
+        e = kat(t) * dudk(x)
+        if abs(v[ie] - e) > 1e-9 * max(1.0, abs(e)):
+            return ["%s restraint with a force constant going from %r to %r in %d steps: energy column at step %d is %r, k(t) dU/dk gives %r" % (m["kind"], k0, k1, n, t, v[ie], e)]
+        if abs(v[iw] - W) > 1e-9 * max(1.0, abs(W)):
+            return ["%s restraint with a force constant going from %r to %r in %d steps%s: accumulated-work column at step %d is %r, the sum over steps of dU/dk times "
+                    "the increment of k is %r" % (m["kind"], k0, k1, n, " (decoupling)" if m["dec"] else "", t, v[iw], W)]
+    return []
+
+
 def gen(rng, tier):
-    return gen_traj(rng, tier) + gen_acf(rng, tier)
+    return gen_traj(rng, tier) + gen_acf(rng, tier) + gen_work(rng, tier)
 
 
 def oracle_acf(case, out):
